@@ -129,8 +129,12 @@ def run(ctx):
                             work.append(x['pl']['l'])
             bad = [s for s in sinks if not (s in ORDER_FREE or s == 'collect:set/map')]
             top = q.top(g.name)
-            if bad and any(top.endswith(k) for k in E11_AUDITED):
-                ctx.ok(rule, '%s:%s:%s' % (rule, top, short(p)), 'hash-order iteration ends in an order-insensitive sink (or is an audited exception)', g.where(bi), 'audited: %s' % E11_AUDITED[[k for k in E11_AUDITED if top.endswith(k)][0]])
+            # the audited exception, wherever the code sits: the single-action table (HashMap<I, A>) frozen into a slice of (I, A)
+            single_table = bad == ['collect:sequence'] and re.fullmatch(r'std::collections::HashMap<I, A>', ty.replace('&mut ', '').replace('&', '').strip()) is not None and \
+                any(re.fullmatch(r'std::boxed::Box<\[\(I, A\)\]>', g.locals[x_['dest']['l']]['ty']) is not None for l_ in seen for _, k_, x_ in q.local_uses(g, l_)
+                    if k_ == 'arg' and short(x_['callee'].get('path') or x_['callee'].get('def') or '') == 'collect' and not x_['dest']['p'])
+            if bad and (any(top.endswith(k) for k in E11_AUDITED) or single_table):
+                ctx.ok(rule, '%s:%s:%s' % (rule, top, short(p)), 'hash-order iteration ends in an order-insensitive sink (or is an audited exception)', g.where(bi), 'audited: %s' % list(E11_AUDITED.values())[0])
             else:
                 ctx.verdict(not bad, rule, '%s:%s:%s#%d' % (rule, top, short(p), n), 'every iteration over a std HashMap / HashSet ends in an order-insensitive sink (all / any / count / collect into a map or set)', g.where(bi),
                             'receiver %s; sinks: %s' % (ty[:50], sinks), breaks='indices, layouts or results depend on the hash seed: presentations of the same game give different answers')
